@@ -254,6 +254,10 @@ func (x *c8Exec) msgReq(v, nflags int) (*db.CreateMessageReq, c8Msg) {
 	if v%9 == 0 {
 		rem += "'\"x"
 	}
+	if x.knob("k_numid") && v%5 == 2 {
+		// a remote ID that reads as a number (leading zeros, exponent): it is a string
+		rem = []string{fmt.Sprintf("%05d", x.nextRem), fmt.Sprintf("%de0", x.nextRem), fmt.Sprintf("0%d.0", x.nextRem)}[v/5%3]
+	}
 	loc := time.UTC
 	if v%4 == 1 {
 		loc = time.FixedZone("", 3600*(v%5-2))
